@@ -6,7 +6,7 @@ CONSTANTS
   Kinds <- AllKinds
   Methods <- AllMethods
   HReps <- AllHReps
-  Cbs <- AllCbs
+  Cbs <- QuickCbs
   Budget = 3
   MaxAt = 2
   ExpmDopModes <- Repaired
